@@ -77,6 +77,14 @@ def _is_raw_float(arg, f):
             binds = [a.value for a in walk_no_nested(f) if isinstance(a, ast.Assign) and e.id in [x for t in a.targets for x in flow.target_names(t)]]
             if e.id in params and not binds:
                 return True
+            if e.id in params:
+                # the parameter itself reaches this use unless a re-binding dominates it
+                from ..copyrule import _last_dominating_binding
+                st = Model.enclosing_stmt(e)
+                dom = _last_dominating_binding(e.id, f, st) if st is not None else None
+                if dom is None:
+                    return True
+                return raw(dom.value, depth + 1)
             if depth > 4:
                 return True
             vals = []
